@@ -162,6 +162,7 @@ class C07(TraceCheck):
         crc = zlib.crc32(json.dumps(hist, sort_keys=True, default=str).encode())
         derive = crc % 3 == 0
         same = (crc // 3) % 3 == 0          # every third history: one frame object, edited in place between the renders
+        cplist = (crc // 9) % 3 == 0        # every third history: cursor_pos handed over as a list, list frames as tuples
         from curtsies.window import CursorAwareWindow
         h, w = hist["h"], hist["w"]
         out = winlib.QueryStream(h, w)
@@ -179,7 +180,7 @@ class C07(TraceCheck):
                        "top": win.top_usable_row})
             last_obj = None
             for st in hist["steps"]:
-                arr = winlib.build_array(st["arr"], st.get("kind", "list"), derive=derive)
+                arr = winlib.build_array(st["arr"], "tuple" if cplist and not same and st.get("kind", "list") == "list" else st.get("kind", "list"), derive=derive)
                 if same and last_obj is not None:
                     # the application keeps one frame object and edits it in place between renders
                     from curtsies.formatstringarray import FSArray
@@ -193,7 +194,7 @@ class C07(TraceCheck):
                 last_obj = arr
                 rec = {"k": "render", "arr": [enc.enc_value(r) for r in arr], "cp": st["cp"], "exc": "", "ret": 0}
                 try:
-                    rec["ret"] = win.render_to_terminal(arr, tuple(st["cp"]))
+                    rec["ret"] = win.render_to_terminal(arr, tuple(st["cp"]) if not cplist else list(st["cp"]))
                 except Exception as e:  # noqa
                     rec["exc"] = enc.exc_name(e)
                     rec["ret"] = -1
